@@ -6,6 +6,24 @@ open F1.Util F1.Gaussian
 def parseFloats (s : String) : Option (Array Float) :=
   if s = "-" then some #[] else ((s.splitOn ",").mapM floatOfHex).map List.toArray
 
+/-- a weight as typed in `--weights`: digits with an optional fractional part (what the generator writes) -/
+def decimalFloat (s : String) : Option Float :=
+  match s.splitOn "." with
+  | [i] => i.toNat?.map fun n => Float.ofNat n
+  | [i, f] => do
+    let ip ← (if i = "" then some 0 else i.toNat?)
+    let fp ← (if f = "" then some 0 else f.toNat?)
+    pure (Float.ofScientific (ip * 10 ^ f.length + fp) true f.length)
+  | _ => none
+
+/-- `s:<hex of the weights string>`: the comma-separated list, empty entries skipped — every other entry counts,
+a zero too -/
+def parseWeightString (s : String) : Option (Array Float) := do
+  let bytes ← hexBytes s
+  let str := String.ofList (bytes.map fun b => Char.ofNat b)
+  let parts := (str.splitOn ",").filter (· ≠ "")
+  (parts.mapM decimalFloat).map List.toArray
+
 /-- `gauss <volume> <repeatNs> <freqNs> <peakNs> <stddevNs> <weights> <startUnixNs> <n>` (floats as bits);
 impl: `<cdfHi> <cdf0> <outs> <pdfs>` | `err` -/
 def gauss (args impl : List String) : Option (String × String) := do
@@ -13,7 +31,7 @@ def gauss (args impl : List String) : Option (String × String) := do
   | [vol, rep, freq, peak, sd, ws, start, n] =>
     let vol ← floatOfHex vol
     let rep ← rep.toInt?; let freq ← freq.toInt?; let peak ← peak.toInt?; let sd ← sd.toInt?
-    let ws ← parseFloats ws
+    let ws ← (if ws.startsWith "s:" then parseWeightString (ws.drop 2).toString else parseFloats ws)
     let start ← start.toInt?; let n ← n.toNat?
     if sd ≤ 0 then return ("err", if impl = ["err"] then "ok" else "FAIL non-positive-standard-deviation-accepted")
     match impl with
